@@ -235,6 +235,7 @@ def check_backend(run, backend, prefix, thorough=False):
     seen = set()
     n_assert = 0
     assert_cands = []
+    n_unknown = 0
     for s, v in outs:
         for (pc, cond, msg, where) in s.asserts:
             key = (str(cond), where)
@@ -242,11 +243,15 @@ def check_backend(run, backend, prefix, thorough=False):
                 continue
             seen.add(key)
             n_assert += 1
+            if n_unknown >= 3:
+                continue        # three assertions undecided already: the remaining ones of this (changed) function are not attempted; the run is inconclusive
             va, ma = run.prove('%s.i assert cannot fail: %s @%s' % (prefix, msg[:40], where.split(':')[-1]), rng_h + list(pc), z3.Not(cond), timeout=30,
                                cross=(n_assert <= 2), on_sat='caller')
             if va == 'sat':
                 assert_cands.append({nm: [engine.model_value(ma, x) for x in P[nm]] for nm in NAMES})
-            elif va == 'unknown' and len(assert_cands) < 3:
+            if va == 'unknown':
+                n_unknown += 1
+            if va == 'unknown' and len(assert_cands) < 3:
                 # no verdict on the general (non-linear) query: decide ground instances at the corners of plausible fixed-width ranges
                 g = corner_instance(rng_h + list(pc), z3.Not(cond), P)
                 if g is not None:
